@@ -45,6 +45,8 @@ META = {
             "identify them by arguments / options / exports alone)",
 }
 
+SIMPLE_NAMES = {"n1": "sub", "n2": "rsub", "n3": "radd"}
+SIMPLE_OPS = ["add", "radd", "sub", "rsub", "mul", "rmul", "getitem"]
 DEVS = ["SchedNoOptions"]
 KEYS = {"SchedNoOptions": "scheduler-expression-options-not-hashed"}
 
@@ -99,7 +101,8 @@ class World:
             return cls(f"{self.ns}.{e['name']}", pos, kw, task_options=opts,
                        export_options={k for k, _ in e["expo"]})
         if kind == "simple":
-            return ex.SimpleExpression(e["name"], pos, kw)
+            # abstract names stand for real operator names, a plain operator and its reflected form among them
+            return ex.SimpleExpression(SIMPLE_NAMES.get(e["name"], e["name"]), pos, kw)
         if kind == "value":
             return ex.ValueExpression(self.arg(e["pos"][0]))
         raise MachineryError(f"unknown kind {kind}")
@@ -270,7 +273,7 @@ def rand_expr(rng, depth: int) -> dict:
         return {"kind": "value", "name": "-", "pos": [{"k": "atom", "v": str(rng.randint(1, 3))}], "kw": [],
                 "opts": [], "expo": [], "via": "ctor"}
     if kind == "simple":
-        return {"kind": "simple", "name": rng.choice(["add", "mul", "getitem"]),
+        return {"kind": "simple", "name": rng.choice(SIMPLE_OPS),
                 "pos": [arg(depth), arg(0)], "kw": [], "opts": [], "expo": [], "via": "api"}
     pos = [arg(depth) for _ in range(rng.randint(0, 2))]
     kw = [[k, arg(depth)] for k in rng.sample(["k", "m", "z"], rng.choice([0, 0, 1, 2]))]
@@ -308,6 +311,8 @@ def mutate(rng, e: dict) -> dict:
         elif what == "kind":
             x["kind"] = "task" if x["kind"] == "sched" else "sched"
             x["via"] = "api"
+    elif x["kind"] == "simple" and what in ("name", "kind", "opts"):
+        x["name"] = rng.choice(SIMPLE_OPS)
     atoms = [a for a in x["pos"] if a["k"] == "atom"]
     if what == "atom" and atoms:
         rng.choice(atoms)["v"] = str(rng.randint(1, 3))
